@@ -39,7 +39,7 @@ struct act {
 	int s;
 	const char *text;
 };
-enum { K_OPEN, K_FIN, K_RESET, K_REQ, K_REPLY, K_CLOCK, K_GARBAGE, K_HTTP, K_HTTPFIN, K_OPENFAIL, K_BURST };
+enum { K_OPEN, K_FIN, K_RESET, K_REQ, K_REPLY, K_CLOCK, K_GARBAGE, K_HTTP, K_HTTPFIN, K_OPENFAIL, K_BURST, K_REQNOID };
 
 static const struct act ACTS[] = {
     {"open(A)", K_OPEN, SA, NULL},
@@ -79,6 +79,8 @@ static const struct act ACTS[] = {
     {"http:upgrade-wrong-version", K_HTTP, 0, "GET /api/jet/ HTTP/1.1\r\nHost: x\r\nUpgrade: websocket\r\nConnection: Upgrade\r\nSec-WebSocket-Key: dGhlIHNhbXBsZSBub25jZQ==\r\nSec-WebSocket-Version: 12\r\n\r\n"},
     {"A:remove(sa)", K_REQ, SA, "\"method\":\"remove\",\"params\":{\"path\":\"sa\"}"},
     {"B:fetch(rule)", K_REQ, SB, "\"method\":\"fetch\",\"params\":{\"id\":1,\"path\":{\"startsWith\":\"s\",\"caseInsensitive\":true}}"},
+    {"B:set(sa) without id", K_REQNOID, SB, "\"method\":\"set\",\"params\":{\"path\":\"sa\",\"value\":7,\"timeout\":3}"},
+    {"C:call(mb) without id", K_REQNOID, SC, "\"method\":\"call\",\"params\":{\"path\":\"mb\",\"args\":[2]}"},
     /* passwd is deliberately absent: it legitimately changes the size of the persistent credential database (judged by C20) */
 };
 #define NACTS ((int)(sizeof(ACTS) / sizeof(ACTS[0])))
@@ -93,6 +95,7 @@ static bool enabled(const struct act *a)
 	case K_FIN:
 	case K_RESET:
 	case K_REQ:
+	case K_REQNOID:
 	case K_GARBAGE:
 	case K_BURST:
 		return alive(a->s);
@@ -128,7 +131,7 @@ static void settle_point(void)
 
 static bool batchable(const struct act *a)
 {
-	return a->kind == K_FIN || a->kind == K_RESET || a->kind == K_REQ || a->kind == K_REPLY || a->kind == K_CLOCK || a->kind == K_GARBAGE || a->kind == K_BURST || a->kind == K_HTTPFIN;
+	return a->kind == K_FIN || a->kind == K_RESET || a->kind == K_REQ || a->kind == K_REQNOID || a->kind == K_REPLY || a->kind == K_CLOCK || a->kind == K_GARBAGE || a->kind == K_BURST || a->kind == K_HTTPFIN;
 }
 
 static int reverse_hook(struct sim_ready *list, int n, int maxevents)
@@ -192,6 +195,10 @@ static void apply(const struct act *a)
 		settle_point();
 		break;
 	}
+	case K_REQNOID:
+		jx_sendf(conn[a->s], "{%s}", a->text);
+		settle_point();
+		break;
 	case K_BURST:
 		for (int i = 0; i < 3; i++) {
 			jx_sendf(conn[a->s], "{\"id\":%d,\"method\":\"set\",\"params\":{\"path\":\"sa\",\"value\":%d}}", ++nreq, i);
@@ -431,6 +438,6 @@ const struct driver drv_c07 = {
     .name = "c07",
     .property = "C07",
     .run = run,
-    .rule = "every sequence (every prefix too) of enabled actions up to the depth bound over {open/fin/reset of a raw-tcp, a websocket and a unix-socket peer; add, fetch, routed set/call, replies, virtual-clock expiry, authenticate right/again/wrong, passwd, config, unknown method, garbage; HTTP front-door probes that fail the handshake at different stages; accept-path failures of fcntl/setsockopt/getsockname; a burst overflowing the tiny routing table}, each ended by {close all -> idle baseline -> SIGTERM, SIGTERM at once}; start states: nothing connected / three peers with elements, a fetch and 1 or 3 routed requests in flight; deviation (budget 1): two consecutive actions become ready together and are harvested by one epoll_wait, in either dispatch order; oracle: peers, accounted heap, raw heap blocks, descriptors and timers at baseline, clean exit, no descriptor-hygiene event, accounted heap never above the cap; every execution is non-trivial; states = distinct action trails",
+    .rule = "every sequence (every prefix too) of enabled actions up to the depth bound over {open/fin/reset of a raw-tcp, a websocket and a unix-socket peer; add, fetch, routed set/call with and without id, replies, virtual-clock expiry, authenticate right/again/wrong, passwd, config, unknown method, garbage; HTTP front-door probes that fail the handshake at different stages; accept-path failures of fcntl/setsockopt/getsockname; a burst overflowing the tiny routing table}, each ended by {close all -> idle baseline -> SIGTERM, SIGTERM at once}; start states: nothing connected / three peers with elements, a fetch and 1 or 3 routed requests in flight; deviation (budget 1): two consecutive actions become ready together and are harvested by one epoll_wait, in either dispatch order; oracle: peers, accounted heap, raw heap blocks, descriptors and timers at baseline, clean exit, no descriptor-hygiene event, accounted heap never above the cap; every execution is non-trivial; states = distinct action trails",
     .assumptions = "descriptor numbers are never reused by the simulated kernel, so any use of a closed or never-issued number is observable|the raw-heap monitor counts malloc/calloc/realloc/free calls made by daemon objects (including the in-tree zlib and cJSON)",
 };
